@@ -318,8 +318,13 @@ func c14WriteCase(tr *vh.Transcript, ops []string) {
 
 func c14Line(r *vh.Rng, n int) []byte {
 	switch k := r.Intn(100); {
-	case k < 50:
+	case k < 38:
 		return sm.NewMiningSetDifficulty(float64(1000 + n)).Serialize()
+	case k < 50:
+		// answers (no method): accepted, refused with result null and an error, refused with result false
+		id := 900 + n
+		return vh.Pick(r, []func(int) *sm.MiningResult{sm.NewMiningResultSuccess, sm.NewMiningResultJobNotFound,
+			sm.NewMiningResultLowDifficulty, sm.NewMiningResultDuplicatedShare, sm.NewMiningResultFalse})(id).Serialize()
 	case k < 60:
 		// a long known line: beyond bufio's 4096-byte buffer
 		raw := fmt.Sprintf(`{"id":null,"method":"mining.notify","params":["%d","%s","%s","%s",[],"20000000","17053894","64c25820",false]}`,
